@@ -7,6 +7,15 @@ _PENDING = ["C01", "C02", "C03", "C04", "C05", "C06", "C07", "C08", "C09", "C10"
 RELAY_NOTE = "Trusted: Coq kernel; the Go harness (event abstraction: the harness records the credential descriptor, attribute presence/size and relay port it used), pion/stun encoding and MESSAGE-INTEGRITY, Go timers under testing/synctest. One listener/one allocation manager is modelled; TCP relay connections are C16's model."
 
 CHECKS = [
+    {"property_id": "C17",
+     "text": "Coq theorems for all secrets, users, realms, durations (zero/negative included) and validation instants: both handlers accept a "
+             "generated username iff unix(now') <= expiry second and return the long-term key of (username, realm, generated password); decimal "
+             "format/atoi round trip over all int64; non-numeric/empty/expired rejected; forgery gives another key under injectivity of the "
+             "symbolic crypto. Model/LtCred.v is run against lt_cred.go under a virtual clock at sub-second steps around expiry, on every "
+             "single-character mutation of usernames, and end to end through a real server.",
+     "note": "Trusted: Coq kernel, Go harness. HMAC-SHA1/base64/MD5 are symbolic (any interpretation); the forgery theorem assumes they are "
+             "injective. unix() is modelled for instants after 1970.",
+     "technique": "Coq proof (decimal round trip via Coq's DecimalN, case analysis) + differential correspondence against lt_cred.go under testing/synctest"},
     {"property_id": "C20",
      "text": "Coq theorems for all 1 <= MinPort <= MaxPort <= 65535 and all random-source outputs (uint16 count = Max-Min+1 >= 1, picked port "
              "in range), retry loop sound / fails clean / bounded by MaxRetries, advertised port is a bound port, requested port passed "
